@@ -35,6 +35,7 @@ Engine(hooks=None, poly_names=..., tiny=1e-6)
   .visited     {(rel, qualname)} of every repo function that was interpreted
   .checks      number of equal-degree obligations that were decided (both sides known)
   .observers   callbacks (node, left, right, kind) invoked on every + - += -= of two plain quantities
+  .call_observers  callbacks (node, callee name, args, kwargs) on every call whose arguments were evaluated
   .add_policy  "strict" (default) | "left" (unequal sum takes the left operand's degree, no Mismatch;
                for analyses that compare two runs term by term through `observers`)
   Q.homog      a checker may set it on an array it passes in: element stores with constant indices are then
@@ -286,8 +287,9 @@ class Seq(Val):
 
 
 class Map(Val):
-    def __init__(self, d=None):
+    def __init__(self, d=None, default=None):
         self.d = dict(d or {})
+        self.default = default      # value of keys of a comprehension over an unknown iterable
 
 
 class Alt(Val):
@@ -405,6 +407,7 @@ def clone(v, memo):
         c = Map()
         memo[id(v)] = c
         c.d = {k: clone(x, memo) for k, x in v.d.items()}
+        c.default = clone(v.default, memo) if v.default is not None else None
     elif isinstance(v, Obj):
         c = Obj(v.cls, v.mod)
         memo[id(v)] = c
@@ -496,6 +499,7 @@ class Engine:
         self.frames = []
         self.fork_depth = 0
         self.visited = set()         # (rel, qualname) of every repo function interpreted
+        self.call_observers = []     # callbacks (call node, dotted callee name or attribute, args, kwargs)
         self.observers = []          # callbacks (node, left, right, kind) on every + / - / += / -=
         self.add_policy = "strict"   # "left": a sum of unequal degrees takes its left operand's degree
         self.calls = dict(NUMPY_CALLS)
@@ -1041,6 +1045,8 @@ class _ExprMixin:
                     return self.unknown(n, "dict comprehension with non-constant key")
                 out[k] = kv.items[1]
             return Map(out)
+        if isinstance(r, Seq) and isinstance(r.elem, Tup) and len(r.elem.items) == 2:
+            return Map({}, default=r.elem.items[1])
         return self.unknown(n, "dict comprehension over unknown iterable")
 
     def iterate(self, v, node):
@@ -1122,6 +1128,9 @@ class _SubMixin:
         if isinstance(base, Map):
             k = self._key(self.eval_expr(n.slice, env))
             if k is not None and k in base.d:
+                return base.d[k]
+            if k is not None and base.default is not None:
+                base.d[k] = clone(base.default, {})
                 return base.d[k]
             if k is None and base.d:
                 vals = list(base.d.values())
@@ -1718,6 +1727,8 @@ class _CallMixin:
             return self.unknown(n, "call with *args/**kwargs")
         args = [self.eval_expr(a, env) for a in n.args]
         kwargs = {k.arg: self.eval_expr(k.value, env) for k in n.keywords}
+        for ob in self.call_observers:
+            ob(n, name or (n.func.attr if isinstance(n.func, ast.Attribute) else ""), args, kwargs)
         if isinstance(fn, ClsRef):
             return self.instantiate(fn, args, kwargs, n)
         if isinstance(fn, Fn):
